@@ -479,3 +479,16 @@ package parse
 //@   loop 0 invariant forallint(k, iff(inmap(cmap, k), cmap[k] >= 1))
 //@   loop 1 invariant forallint(k, implies(visited(k), rowok(n, k)))
 //@   loop 2 invariant forallint(k, implies(visited(k), k == NodeUnknown || k == NodeDataDef || inmap(n.card, k)))
+
+// ---------------------------------------------------------------------------
+// Indentation of continuation lines (C08): the column of the first character after the opening quote of the
+// double-quoted piece s that the parser has just consumed (its text ends where the lexer's last item, the
+// closing quote, starts), counted from the start of its line with a tab as 8 columns.
+//@ define pieceStart(t, s) = t.lex.lastPos - len(s)
+//@ define lineStart(in, p) = lastindex(in[:p], "\n") + 1
+//@ define justRead(t, s) = t != nil && t.lex != nil && 0 <= t.lex.lastPos && t.lex.lastPos <= len(t.lex.input) && hassuffix(t.lex.input[:t.lex.lastPos], s)
+//@ func openQuotePos
+//@   requires justRead(t, s)
+//@   nopanic
+//@   ensures result == cols_upto(t.lex.input[lineStart(t.lex.input, pieceStart(t, s)):pieceStart(t, s)], pieceStart(t, s) - lineStart(t.lex.input, pieceStart(t, s)))
+//@   loop 0 invariant quotePos == cols_upto(leadUp, looppos) && 0 <= quotePos && quotePos <= 8*looppos
